@@ -3,10 +3,10 @@
 copy of /repo, keep those that still compile and pass the 153 existing tests, and see whether the quick checks notice.
 Everything happens in scratch copies under /tmp/mut (a git worktree of /repo and a copy of /verif whose harness points
 at it); /repo and /verif themselves are not touched.  Results: /verif/.cache/mutants.jsonl
-usage: tools/mutants.py setup | run <count> <seed> | report"""
+usage: [MUT_DIR=/tmp/mutN] [MUT_OPS=2] [MUT_PART=k/K] tools/mutants.py setup | run <count> <seed> | report"""
 import json, os, random, re, shutil, subprocess, sys, time
 
-MUT = "/tmp/mut"
+MUT = os.environ.get("MUT_DIR", "/tmp/mut")
 MREPO = MUT + "/repo"
 MVERIF = MUT + "/verif"
 OUT = "/verif/.cache/mutants.jsonl"
@@ -25,6 +25,17 @@ OPS = [
     (r"= None;", "= None; /*kept*/"), (r"\.trim\(\)", ".trim_start()"), (r"\.trim_end\(\)", ""), (r"\.is_ascii_digit\(\)", ".is_ascii_hexdigit()"),
     (r"\.to_ascii_uppercase\(\)", ".to_ascii_lowercase()"), (r"\.is_empty\(\)", ".len() == 1"), (r"\bindex \+= ", "index -= "), (r"\.pop\(\)", ".last().cloned()"),
 ]
+# second campaign: other operator classes (boundaries inverted rather than shifted, constants, dropped calls, early exits)
+OPS2 = [
+    (r" < ", " > "), (r" > ", " < "), (r" <= ", " >= "), (r" >= ", " <= "), (r" == ", " >= "), (r" \+= ", " -= "), (r" -= ", " += "),
+    (r"\b0\.0\b", "1.0"), (r"\b1\.0\b", "0.0"), (r" = 0;", " = 1;"), (r"\(0\)", "(1)"), (r"\b10000\b", "9999"), (r"\b32\b", "33"), (r"\b48\b", "47"), (r"\b10;", "11;"),
+    (r"\.min\(", ".max("), (r"\.max\(", ".min("), (r"\bcontinue;", "break;"), (r"\bbreak;", "continue;"), (r"unwrap_or\(0\)", "unwrap_or(1)"), (r"unwrap_or\(1\)", "unwrap_or(0)"),
+    (r"\.first\(\)", ".last()"), (r"\.last\(\)", ".first()"), (r"\.is_some\(\)", ".is_none()"), (r"\.is_none\(\)", ".is_some()"), (r"if let Some\((\w+)\) = (.*) \{$", r"if let Some(\1) = None::<()>.and(\2) {"),
+    (r"^(\s*)if (?!let)(.*) \{$", r"\1if !(\2) {"), (r"^(\s*)\} else if (?!let)(.*) \{$", r"\1} else if !(\2) {"), (r"^(\s*)while (?!let)(.*) \{$", r"\1while !(\2) {"),
+    (r"\.len\(\) - 1", ".len()"), (r"\.len\(\)", ".len().saturating_sub(1)"), (r"\* ", "+ "), (r" / ", " * "), (r" % ", " / "), (r"\.chars\(\)", ".chars().rev()"),
+    (r"\.trim_start\(\)", ""), (r"\.to_ascii_uppercase\(\)", ""), (r"\.floor\(\)", ".ceil()"), (r"\.abs\(\)", ""), (r"as usize", "as u8 as usize"),
+]
+DELETE2 = [r"^\s*self\.[\w.()]+\((.*)\);\s*$", r"^\s*\w+\.push\(.*\);\s*$", r"^\s*\w+(\.\w+)* [+-]= .*;\s*$", r"^\s*return;\s*$", r"^\s*\w+(\.\w+)* = (true|false);\s*$", r"^\s*self\.\w+(\.\w+)* = .*;\s*$"]
 DELETE = [r"^\s*self\.\w+(\.\w+)*\.clear\(\);\s*$", r"^\s*self\.\w+ = None;\s*$", r"^\s*self\.\w+ = \w+::default\(\);\s*$", r"^\s*self\.program\(\)\.\w+\(\);\s*$"]
 
 
@@ -57,6 +68,7 @@ def setup():
 
 def candidates():
     cands = []
+    ops, dels = (OPS2, DELETE2) if os.environ.get("MUT_OPS") == "2" else (OPS, DELETE)
     for rel in FILES:
         p = os.path.join(MREPO, rel)
         if not os.path.exists(p):
@@ -74,12 +86,12 @@ def candidates():
             s = l.strip()
             if not s or s.startswith("//") or s.startswith("#[") or "panic!" in s or "assert" in s or "write!(" in s or "format!(" in s and "Err" not in s:
                 continue
-            for pat, rep in OPS:
+            for pat, rep in ops:
                 for m in re.finditer(pat, l):
                     new = l[:m.start()] + re.sub(pat, rep, l[m.start():m.end()]) + l[m.end():]
                     if new != l:
                         cands.append((rel, i, l, new))
-            for pat in DELETE:
+            for pat in dels:
                 if re.match(pat, l):
                     cands.append((rel, i, l, "        // (deleted) " + s))
     return cands
@@ -89,6 +101,10 @@ def run(count, seed):
     rnd = random.Random(seed)
     cands = candidates()
     rnd.shuffle(cands)
+    part = os.environ.get("MUT_PART")
+    if part:
+        k, K = (int(x) for x in part.split("/"))
+        cands = [c for j, c in enumerate(cands) if j % K == k]
     done = set()
     if os.path.exists(OUT):
         for l in open(OUT):
@@ -116,7 +132,7 @@ def run(count, seed):
             rec["result"] = "does-not-compile"
         else:
             rc, out = sh("timeout -k 5 240 cargo test --workspace --no-fail-fast --offline 2>&1 | grep -E '^test result|panicked|FAILED|timed out' | head -20; echo rc=${PIPESTATUS[0]}", cwd=MREPO, timeout=400)
-            sh("pkill -9 -f /tmp/mut/repo/target/debug/deps/ || true")
+            sh("pkill -9 -f %s/target/debug/deps/ || true" % MREPO)
             passed = sum(int(m) for m in re.findall(r"test result: ok\. (\d+) passed", out))
             if "FAILED" in out or "rc=124" in out or "rc=137" in out or passed < 153:
                 rec["result"] = "killed-by-existing-tests"
